@@ -1,4 +1,5 @@
 """C04 - terminal statuses are final and nothing is scheduled after them."""
+from vt.harness import kernels
 from vt.harness.common import history_body, ob
 from vt.monitors import C04Terminal, OracleTracker
 
@@ -8,7 +9,7 @@ def terminal(ch, ctx, did, **kw):
 
 
 def obligations(tier):
-    obs = []
+    obs = [kernels.e1("C04", "L4_terminal_final", "L4_terminal_final", timeout=600)]
     defs = ["D02", "D04", "D06", "D07", "D12", "D11s"]
     steps = 5 if tier == "quick" else 7
     for did in defs:
